@@ -1711,7 +1711,19 @@ int QSexact_solver (mpq_QSdata * p_mpq,
 			break;
 		case QS_LP_INFEASIBLE:
 			y_mpf = mpf_EGlpNumAllocArray (p_mpf->qslp->nrows);
-			EGcallD(mpf_QSget_infeas_array (p_mpf, y_mpf));
+			if (mpf_QSget_infeas_array (p_mpf, y_mpf))
+			{
+				/* no certificate at this precision: as in the double precision stage,
+				 * this is a reason to go on, not to give up */
+				if (p_mpq->simplex_display || DEBUG >= __QS_SB_VERB)
+				{
+					QSlog("mpf_%u precision gave no infeasibility certificate, "
+											"continuing with next precision", precision);
+				}
+				mpf_EGlpNumFreeArray (y_mpf);
+				last_status = *status = QS_LP_UNSOLVED;	/* unproven: never hand it out */
+				goto NEXT_PRECISION;
+			}
 			y_mpq = QScopy_array_mpf_mpq (y_mpf);
 			mpf_EGlpNumFreeArray (y_mpf);
 			if (QSexact_infeasible_test (p_mpq, y_mpq))
